@@ -133,6 +133,10 @@ func (s *RSchema) Compile() error {
 func (s *RSchema) doCompile() error {
 	content := s.File.Content()
 
+	if content.Len() == 0 {
+		return kit.NewJSchemaError(s.File, errs.ErrEmptySchema.F())
+	}
+
 	if content.Byte(0) != '/' {
 		return s.newJSchemaError(errs.ErrRegexUnexpectedStart, 0, content.Byte(0))
 	}
